@@ -12,6 +12,11 @@ Decided:
               encoder, the frame number is incremented on every success path of encode_frame
   C02.utf8    the coded-number writer's ranges, prefix lengths and continuation bytes equal RFC 9639 9.1.5
   C02.resid   the i32::MIN residual is never handed to the Rice writer; escape code is RICE_MAX
+  C02.cache   reusable scratch buffers and recorders are cleared before they are refilled (shared with C01)
+  C02.count   the byte / checksum adaptors account the bytes actually transferred (shared with C07/C13/C14)
+  C02.cache   reusable scratch buffers and recorders are cleared before they are refilled (shared with C01)
+  C02.count   the byte / checksum adaptors account the bytes actually transferred (shared with C07 / C13 / C14)
+  (C02.num also requires that nothing can fail after the frame number was advanced: consecutive numbering)
 Not decided: residual ranges, predictor / wasted-bit semantics, that the decoded PCM equals the input.
 """
 from rules.common import *
